@@ -28,6 +28,7 @@
  * - `A set K V fail` / `A replace K V fail` / `A get K fail`: the call on a key that has no native key yet, with the lazy
  *   pthread_key_create failing (N= shows `kcfail`); `A current fail2` / `fail3`: p_uthread_current of a thread without a stored
  *   handle with the next 2 / 3 pthread_key_create calls failing (NULL; the PUThreadBase block takes a handle id as above).
+ * - `A set K V ssfail` / `A replace K V ssfail`: the call with the native pthread_setspecific reporting an error (N= shows `ssfail`).
  * - `T start fail2`: the proxy of T runs with both of its lazy pthread_key_create calls failing (nothing stored in the library
  *   slot: puthread.c `is_stored == FALSE`); `T return` then includes the proxy's own p_uthread_unref; p_uthread_exit in T returns.
  * - `A join H fail`: p_uthread_join with the native pthread_join reporting an error (ESRCH, nothing is joined).
@@ -222,10 +223,12 @@ int __wrap_pthread_key_create (pthread_key_t *key, void (*d) (void *)) {
 	return r;
 }
 int __wrap_pthread_key_delete (pthread_key_t key) { char b[24]; nat ("kd%s", show_n (nat_of_key[key], b)); return __real_pthread_key_delete (key); }
+static int fail_ss;                                     /* the library's next store under a user key reports an error */
 int __wrap_pthread_setspecific (pthread_key_t key, const void *v) {
 	int id = nat_of_key[key];
 	char b[24];
 	show_n (id, b);
+	if (fail_ss && !nat_islib[id]) { fail_ss = 0; nat ("ssfail%s", b); return ENOMEM; }
 	if (nat_islib[id]) nat (v ? "ss%s:H" : "ss%s:0", b); else nat ("ss%s:%lu", b, (unsigned long) (uintptr_t) v);
 	return __real_pthread_setspecific (key, v);
 }
@@ -395,12 +398,13 @@ static void exec_op (Slot *s) {
 		snprintf (o->res, 48, "T%d,H%d", t, h);
 		break; }
 	case O_SET: case O_REPLACE: case O_GET:
-		fail_kc = o->jfail;                             /* `… fail`: the lazy pthread_key_create of this call fails */
-		watch_all = o->jfail; nop_blk = 0;
+		fail_kc = o->jfail == 1;                        /* `… fail`: the lazy pthread_key_create of this call fails */
+		fail_ss = o->jfail == 2;                        /* `… ssfail`: its pthread_setspecific fails */
+		watch_all = o->jfail == 1; nop_blk = 0;
 		tls_call (o->kind, kptr[o->k], o->v, o->res);
 		watch_all = 0;
-		if (fail_kc) DIE ("scripted pthread_key_create failure was not consumed");
-		if (o->jfail && nop_blk > 0) snprintf (o->res, 48, "leak:%d", nop_blk);   /* the failed call kept a block */
+		if (fail_kc || fail_ss) DIE ("scripted native failure was not consumed");
+		if (o->jfail == 1 && nop_blk > 0) snprintf (o->res, 48, "leak:%d", nop_blk);   /* the failed call kept a block */
 		break;
 	case O_RACE:
 		while (!race_go) ;
@@ -624,6 +628,11 @@ static void run_case (char **lines, int n) {
 			int k = atoi (w[2]);
 			if (!running || !key_ok (k)) { bad (); continue; }
 			o.kind = !strcmp (op, "set") ? O_SET : O_REPLACE; o.k = k; o.v = strtoul (w[3], NULL, 10);
+			dispatch (a, &o); kpub[k] = 1; answer ("-", "", 1);
+		} else if ((!strcmp (op, "set") || !strcmp (op, "replace")) && nw == 5 && !strcmp (w[4], "ssfail")) {
+			int k = atoi (w[2]);
+			if (!running || !key_ok (k)) { bad (); continue; }
+			o.kind = !strcmp (op, "set") ? O_SET : O_REPLACE; o.k = k; o.v = strtoul (w[3], NULL, 10); o.jfail = 2;
 			dispatch (a, &o); kpub[k] = 1; answer ("-", "", 1);
 		} else if ((!strcmp (op, "set") || !strcmp (op, "replace")) && nw == 5 && !strcmp (w[4], "fail")) {
 			int k = atoi (w[2]);
